@@ -720,6 +720,15 @@ func validateV2Siafunds(ms *MidState, txn types.V2Transaction) error {
 		}
 		spent[sfi.Parent.ID] = i
 
+		// A claim start beyond the current tax revenue is impossible for a
+		// genuine element; it must be rejected here because the claim payout
+		// (revenue - claim start) would otherwise underflow when the
+		// transaction is applied. Only reachable through ephemeral parents,
+		// whose contents are not checked until the ephemeral output hardfork.
+		if sfi.Parent.ClaimStart.Cmp(ms.siafundTaxRevenue) > 0 {
+			return fmt.Errorf("siafund input %v has claim start (%v) exceeding the siafund tax revenue (%v)", i, sfi.Parent.ClaimStart, ms.siafundTaxRevenue)
+		}
+
 		// check accumulator
 		if sfi.Parent.StateElement.LeafIndex == types.UnassignedLeafIndex {
 			if err := validateEphemeralSiafundElement(ms, sfi); err != nil {
